@@ -184,7 +184,7 @@ struct C17 : public Driver {
                 s["value"] = g.pick(big); s["from"] = ""; s["count"] = ""; s["token"] = "1"; s["gsep"] = g.pick(seps); s["gsize"] = (long long)g.range(1, 5); }      // nine to fourteen digits, grouped
             sets.push(s);
         }
-        p["sets"] = sets; p["ns_mode"] = nsMode;
+        p["sets"] = sets; p["ns_mode"] = nsMode; p["xerces_src"] = run % 4 == 1;
         // histories: visiting orders x clock modes (the first is the reference)
         Json hist = Json::array(); static const std::vector<std::string> orders = { "doc", "rk", "rev", "deep" }; static const std::vector<std::string> clocks = { "advance", "coarse", "stall", "minus1", "back" };
         { Json h = Json::object(); h["order"] = "doc"; h["clock"] = "advance"; hist.push(h); }
@@ -212,18 +212,20 @@ struct C17 : public Driver {
         {
             XEnv env(&mm);
             SourceHolder kept; const XalanParsedSource* pre = nullptr;
+            const std::string srcForm = plan.boolean("xerces_src") ? "parsed-xerces" : "parsed";      // the numbering walk also runs over the Xerces-DOM-backed source tree
+            if (plan.boolean("xerces_src")) res.count("source:xerces-dom");
             if (plan.boolean("poison")) {
-                if (makeSource(env, "parsed", plan.str("doc"), SrcFault(), kept)) pre = kept.ps;
+                if (makeSource(env, srcForm, plan.str("doc"), SrcFault(), kept)) pre = kept.ps;
                 if (pre) {
                     std::string px = "<?xml version=\"1.0\"?><xsl:stylesheet version=\"1.0\" xmlns:xsl=\"http://www.w3.org/1999/XSL/Transform\" xmlns:nofn=\"urn:x-nofn\"><xsl:template match=\"/\"><out><xsl:for-each select=\"(//*)[position() &gt; last() - 2]\"><o><xsl:number level=\"" + plan.str("poison_level", "any") + "\" count=\"*[not(@id = '" + plan.str("poison_node") + "') or nofn:none()]\"/></o></xsl:for-each></out></xsl:template></xsl:stylesheet>";
-                    XReq rq; rq.doc = plan.str("doc"); rq.xsl = px; rq.srcForm = "parsed"; SimSink sink; XformOut po = runTransform(env, rq, sink, pre);
+                    XReq rq; rq.doc = plan.str("doc"); rq.xsl = px; rq.srcForm = srcForm; SimSink sink; XformOut po = runTransform(env, rq, sink, pre);
                     res.count(po.ok() ? "poison:completed" : "fault:abort-inside-count-pattern"); tr.ev("poison st=" + std::to_string(po.status));
                 }
             }
             for (size_t h = 0; h < hist.a.size(); ++h) {
                 const Json& H = hist.a[h];
                 g_clock.configure(H.str("clock", "advance"), H.num("delta", 1), H.num("every", 7), H.num("backAt"), H.num("backBy"));
-                XReq rq; rq.doc = pre ? plan.str("doc") : rerank(plan.str("doc"), (uint64_t)H.num("rkseed")); rq.xsl = sheetFor(sets, H.str("order", "doc")); SimSink sink; if (pre) rq.srcForm = "parsed";
+                XReq rq; rq.doc = pre ? plan.str("doc") : rerank(plan.str("doc"), (uint64_t)H.num("rkseed")); rq.xsl = sheetFor(sets, H.str("order", "doc")); SimSink sink; if (pre || plan.boolean("xerces_src")) rq.srcForm = srcForm;
                 XformOut o = runTransform(env, rq, sink, pre);
                 res.count("transforms"); res.count("simclock_ticks", (int64_t)g_clock.calls); if (H.str("clock") != "advance") res.count("fault:clock-" + H.str("clock")); res.count("order:" + H.str("order"));
                 if (mm.reuse) res.count("fault:addr-reuse");
